@@ -64,9 +64,32 @@ func (p *Prog) Files() map[string]string {
 	return m
 }
 
+// ThriftRootRel is the thrift root relative to the program's source
+// directory: "idl" when passed explicitly, else the deepest common ancestor
+// directory of all files (what the CLI infers).
+func (p *Prog) ThriftRootRel() string {
+	if !p.CLI.InferRoot {
+		return "idl"
+	}
+	var common []string
+	for i, f := range p.P.Files {
+		parts := strings.Split(filepath.Dir(f.Path), "/")
+		if i == 0 {
+			common = parts
+			continue
+		}
+		k := 0
+		for k < len(common) && k < len(parts) && common[k] == parts[k] {
+			k++
+		}
+		common = common[:k]
+	}
+	return strings.Join(common, "/")
+}
+
 // GoPkg returns the import path of the package generated for a file.
 func (p *Prog) GoPkg(f *idlm.File) string {
-	rel := strings.TrimSuffix(strings.TrimPrefix(f.Path, "idl/"), ".thrift")
+	rel := strings.TrimSuffix(strings.TrimPrefix(f.Path, p.ThriftRootRel()+"/"), ".thrift")
 	return p.PkgBase + "/" + rel
 }
 
@@ -82,27 +105,36 @@ type Spec struct {
 	Mutate func(i uint64, r *core.Rand, p *idlm.Program)
 }
 
+// Derive draws program i of a spec. The orchestrator and the driver call this
+// with the same arguments and obtain the same program (and the same object
+// graph), so the driver needs no serialised schema.
+func Derive(seed uint64, spec Spec, i uint64) *Prog {
+	rng := core.NewRand(seed, spec.Stream, i)
+	pr := &Prog{Index: i, Seed: seed, Stream: spec.Stream, PkgBase: fmt.Sprintf("verifgen/p%d", i)}
+	pr.Sem = spec.Sem(i, rng.Fork())
+	pr.P = idlm.GenProgram(rng.Fork(), pr.Sem)
+	if spec.Mutate != nil {
+		spec.Mutate(i, rng.Fork(), pr.P)
+	}
+	lay := idlm.PlainLayout
+	if spec.Layout != nil {
+		lay = spec.Layout(i, rng.Fork())
+	}
+	pr.P.RenderAll(rng.Fork(), lay)
+	if spec.CLI != nil {
+		pr.CLI = spec.CLI(i, rng.Fork())
+	}
+	return pr
+}
+
 // Generate draws the programs, writes their sources and runs the real CLI.
 func Generate(r *core.Run, thriftrw string, name string, spec Spec) *Batch {
 	b := &Batch{Dir: filepath.Join(r.Scratch, name)}
 	os.RemoveAll(b.Dir)
 	os.MkdirAll(filepath.Join(b.Dir, "mod"), 0o755)
 	for i := spec.From; i < spec.To; i++ {
-		rng := core.NewRand(r.Seed, spec.Stream, i)
-		pr := &Prog{Index: i, Seed: r.Seed, Stream: spec.Stream, PkgBase: fmt.Sprintf("verifgen/p%d", i), SrcDir: filepath.Join(b.Dir, "src", fmt.Sprintf("p%d", i))}
-		pr.Sem = spec.Sem(i, rng.Fork())
-		pr.P = idlm.GenProgram(rng.Fork(), pr.Sem)
-		if spec.Mutate != nil {
-			spec.Mutate(i, rng.Fork(), pr.P)
-		}
-		lay := idlm.PlainLayout
-		if spec.Layout != nil {
-			lay = spec.Layout(i, rng.Fork())
-		}
-		pr.P.RenderAll(rng.Fork(), lay)
-		if spec.CLI != nil {
-			pr.CLI = spec.CLI(i, rng.Fork())
-		}
+		pr := Derive(r.Seed, spec, i)
+		pr.SrcDir = filepath.Join(b.Dir, "src", fmt.Sprintf("p%d", i))
 		for _, f := range pr.P.Files {
 			full := filepath.Join(pr.SrcDir, f.Path)
 			os.MkdirAll(filepath.Dir(full), 0o755)
